@@ -1,4 +1,5 @@
 import H2.Proofs.ClientSerial
+import H2.Proofs.ClientRunIds
 /-!
 # C02 — each request is sent intact and gets exactly its own response
 
@@ -397,5 +398,87 @@ example : (readHeader 3 {} { tag := "a" } false false 0 [0x20]).2.2 = none := by
 theorem single_frame_block_decoded_whole (c : Conn) (tag : String) (r : Req) (sid : Nat) (es : Bool) (block : Bytes) :
     (readStream c tag r (hdrFrame sid es true block)).2 = (readHeader (block.length + 1) c.dec r false false 0 block).2.2 := by
   rw [readStream_hdr]; simp [decodeBlock]
+
+/-! ## the FULL serial model, every run
+
+NEEDS `import H2.Proofs.ClientRunIds` at the top of this file. `ids_fresh_odd_increasing` and `no_cross_delivery` above
+are about one call of `writeRequest` / `dispatch`; here: every run of `H2.Client.step` from the connection the driver
+creates (`Init`), and whole `bytes` events. Proofs: `H2/Proofs/ClientRunHdr.lean`, `ClientRunIds.lean`. -/
+
+section FullModel
+open H2.Client
+
+/-- **Full.stream_ids_increase**: in any run, the stream identifiers of the HEADERS frames the client writes, in the order
+written, are strictly increasing and odd; each is below the `nextID` the connection ends with, which is odd as well.
+(Each is the `nextID` held just before its step and that step moves `nextID` up by 2: `Full.headers_carry_nextID`.) -/
+theorem Full.stream_ids_increase (c : Conn) (h : Init c) (evs : List Event) :
+    (runIds (run c evs).2).Pairwise (· < ·) ∧
+    (∀ i ∈ runIds (run c evs).2, i % 2 = 1 ∧ 1 ≤ i ∧ i < (run c evs).1.nextID) ∧ (run c evs).1.nextID % 2 = 1 := by
+  obtain ⟨a, b, _, d⟩ := run_ids evs c (init_hinv h) (by rw [h.nextID])
+  refine ⟨a, ?_, d⟩
+  intro i hi
+  obtain ⟨x, y, z⟩ := b i hi
+  rw [h.nextID] at x
+  exact ⟨y, x, z⟩
+
+/-- **Full.headers_carry_nextID**: the step after any prefix of a run writes no HEADERS and moves `nextID` by 0 or 2, or
+writes exactly one HEADERS, on the `nextID` held before the step, and moves `nextID` up by 2 -/
+theorem Full.headers_carry_nextID (c : Conn) (h : Init c) (pre : List Event) (e : Event) :
+    (outIds (step (run c pre).1 e).2 = [] ∧
+      ((step (run c pre).1 e).1.nextID = (run c pre).1.nextID ∨ (step (run c pre).1 e).1.nextID = (run c pre).1.nextID + 2)) ∨
+    (outIds (step (run c pre).1 e).2 = [(run c pre).1.nextID] ∧ (step (run c pre).1 e).1.nextID = (run c pre).1.nextID + 2) :=
+  step_ids _ (run_hinv (init_hinv h) pre) e
+
+/-- **Full.frame_touches_its_stream_only**: in ANY state, a frame on stream `sid ≠ 0` leaves alone the request of every tag
+that is not registered under `sid`; the one exception is a connection that has had GOAWAY(last > 0), where the requests
+waiting on streams above `last` are failed after every frame (C11) -/
+theorem Full.frame_touches_its_stream_only (c : Conn) (f : Frame.Frame) (hs : f.stream ≠ 0) (t : String)
+    (h1 : lookupA c.reqQueued f.stream ≠ some t)
+    (h2 : c.stateClosed = true → ∀ s, (s, t) ∈ c.reqQueued → s ≤ c.closeRef) :
+    getReq (rdFrame c f).1 t = getReq c t :=
+  rdFrame_touches_only c f hs t h1 h2
+
+/-- **Full.bytes_touch_their_streams_only**: in any run, a `bytes` event whose octets are complete frames on streams that
+are not registered for `t` leaves the request `t` exactly as it was (result, status, headers, body), provided the step
+does not end the connection -/
+theorem Full.bytes_touch_their_streams_only (c : Conn) (h : Init c) (pre : List Event) (b : Bytes) (t : String)
+    (hf : ForeignTo (run c pre).1 t (bytesSplit (run c pre).1 b).1)
+    (h2 : (run c pre).1.stateClosed = true → ∀ s, (s, t) ∈ (run c pre).1.reqQueued → s ≤ (run c pre).1.closeRef)
+    (hlive : ∃ fs, (step (run c pre).1 (.bytes b)).2 = .frames fs) :
+    getReq (step (run c pre).1 (.bytes b)).1 t = getReq (run c pre).1 t :=
+  step_bytes_touches_only _ (run_invariant (init_inv h) pre) b t hf h2 hlive
+
+/-! ### non-vacuity: two requests, the response to the first -/
+
+def fullReq (tag : String) : ReqSpec :=
+  { tag := tag, method := [71, 69, 84], scheme := [104, 116, 116, 112, 115], host := [104], path := [47], ua := [117],
+    hdrs := [], body := .none }
+
+/-- HEADERS on stream 1, END_STREAM | END_HEADERS, `:status 200` -/
+def fullResp : List Nat := [0, 0, 1, 1, 5, 0, 0, 0, 1, 0x88]
+
+def fullRun : List Event := [.req (fullReq "a"), .req (fullReq "b"), .bytes fullResp, .req (fullReq "c")]
+
+/-- three HEADERS frames, on streams 1, 3, 5; `nextID` ends at 7 -/
+example : runIds (run {} fullRun).2 = [1, 3, 5] ∧ (run {} fullRun).1.nextID = 7 := by decide +kernel
+
+/-- the hypotheses of `Full.bytes_touch_their_streams_only` hold for "b" and the response on stream 1, which does change "a" -/
+example : ForeignTo (run {} (fullRun.take 2)).1 "b" (bytesSplit (run {} (fullRun.take 2)).1 fullResp).1 := by
+  refine ⟨by decide +kernel, ?_, trivial⟩
+  intro s hm
+  have : (run {} (fullRun.take 2)).1.reqQueued = [(1, "a"), (3, "b")] := by decide +kernel
+  rw [this] at hm
+  have : (match (bytesSplit (run {} (fullRun.take 2)).1 fullResp).1 with | [.frame f] => f.stream | _ => 0) = 1 := by
+    decide +kernel
+  simp only [List.mem_cons, Prod.mk.injEq, List.mem_nil_iff, or_false] at hm
+  rcases hm with ⟨_, hm⟩ | ⟨rfl, _⟩
+  · exact absurd hm (by decide)
+  · decide +kernel
+
+example : (getReq (run {} (fullRun.take 3)).1 "a").map (·.errBuf) = some (some .ok) ∧
+    (getReq (run {} (fullRun.take 3)).1 "b").map (·.errBuf) = some none ∧
+    (run {} (fullRun.take 2)).1.stateClosed = false := by decide +kernel
+
+end FullModel
 
 end H2.Props.C02
